@@ -184,6 +184,20 @@ CHECKS["C13"] = dict(
          "requests at every position must not duplicate or invent elements.",
     note=EXPR_NOTE + " Adaptors not generated yet are listed in the evidence assumptions.")
 
+CHECKS["C18"] = dict(
+    level="exploration", design="5 C18",
+    technique="runtime monitoring, model-based: random operation sequences on any_object / any_unique / any_ref against a slot "
+              "model with tracked wrapped objects (lineage ids, ledger, counting allocator); any_sender_of / type_erase "
+              "inserted into generated programs and compared with the reference model (wrapper = identity, declared queries "
+              "only); any_scheduler over a real context; ASan/UBSan",
+    text="Wrapped objects carry a lineage id and register every construction/move/copy/destruction; after each operation "
+         "every live wrapper must report, through its erased CPOs, the object the model says it holds; heap-stored objects "
+         "must be handed over (not moved) and inline ones moved exactly once, never copied; everything is destroyed exactly "
+         "once and the allocator balance returns to zero; exceptions thrown by the wrapped object's CPO propagate unchanged. "
+         "Generated sender/stream programs with any_sender_of / type_erase inserted must behave as the model of the same "
+         "program without the wrapper (completions, payload ids, stop reaching the wrapped leaf, declared queries).",
+    note=EXPR_NOTE)
+
 NOT_YET = "check not built yet (construction in progress, see DESIGN.md section 10)"
 
 
